@@ -169,18 +169,20 @@ package termincommittee
 //@   requires [emitted-by-a] EmittedPrepare(a, pm)
 //@   requires [unless-the-peer-view-is-already-higher] pm.content.SignedHeader().View() >= b.State.view
 //@   ensures [L11.an-emitted-prepare-is-acceptable-to-the-peer] AcceptsPrepare(b, pm)
-// a vote emitted by a and delivered to b, the leader of its view, while b has not passed that view. The prepared proof
-// inside the vote (when there is one) is covered by hypothesis: that a proof assembled by a from its log is acceptable
-// is not decided here (see DESIGN 9.10).
+// a vote emitted by a and delivered to b, the leader of its view, while b has not passed that view. What a sends satisfies
+// EmittedVote and EmittedVoteProof (both obligations at a's send site); b is a member of the same committee list with an
+// agreeing key manager and an agreeing block-commitment predicate (A-SPI-AGREE), at the same height.
+//@ pred EmittedVoteProof(tic *TermInCommittee, vcm *interfaces.ViewChangeMessage) = HasProof(vcm.content) ==>
+//@   | ProofAcceptable(tic, vcm.content.SignedHeader().PreparedProof(), tic.State.height, vcm.content.SignedHeader().View()) && vcm.block != nil
+//@   | && Commits(tic.blockUtils, vcm.content.SignedHeader().BlockHeight(), vcm.block, vcm.content.SignedHeader().PreparedProof().PreprepareBlockRef().BlockHash())
 //@ func lemmaC11Vote
 //@   props C11
 //@   requires TicOK(a) && TicOK(b) && vcm != nil && vcm.content != nil
-//@   requires [matching-state.same-committee-keys-and-instance] SameCommittee(a, b) && KeysAgree(a, b) && a.State.height == b.State.height && a.messageFactory.instanceId == b.messageFactory.instanceId
-//@   requires [emitted-by-a] EmittedVote(a, vcm)
+//@   requires [matching-state.same-committee-list-keys-instance-height] a.committeeMembers == b.committeeMembers && KeysAgree(a, b) && a.State.height == b.State.height && a.messageFactory.instanceId == b.messageFactory.instanceId
+//@   requires [matching-state.A-SPI-AGREE.block-commitment] forall ch int, cb interfaces.Block, cx Str :: Commits(a.blockUtils, ch, cb, cx) ==> Commits(b.blockUtils, ch, cb, cx)
+//@   requires [emitted-by-a] EmittedVote(a, vcm) && EmittedVoteProof(a, vcm)
 //@   requires [addressed-to-b-as-leader-of-that-view] b.myMemberId == LeaderOf(b.committeeMembers, vcm.content.SignedHeader().View())
 //@   requires [unless-the-leader-already-passed-the-view] vcm.content.SignedHeader().View() >= b.State.view
-//@   requires [hypothesis.the-proof-a-assembled-is-acceptable] HasProof(vcm.content) ==> ProofAcceptable(b, vcm.content.SignedHeader().PreparedProof(), b.State.height, vcm.content.SignedHeader().View())
-//@     | && vcm.block != nil && Commits(b.blockUtils, vcm.content.SignedHeader().BlockHeight(), vcm.block, vcm.content.SignedHeader().PreparedProof().PreprepareBlockRef().BlockHash())
 //@   ensures [L11.an-emitted-vote-is-acceptable-to-its-leader] AcceptsVote(b, vcm)
 //@ func lemmaC11Commit
 //@   props C11
